@@ -520,6 +520,21 @@ func vfC13eval(c *vfC13Case, st *vfC13Stats) error {
 		}
 	}
 	multi0.Close()
+	// a second, complete epoch served next to the damaged one: with two epochs loaded getTransaction first asks
+	// every epoch's sig-exists index, so an error of the damaged epoch meets a "not present" of the other one
+	var compEnv *vfEpochEnv
+	{
+		cs := *vfC08specs()[0]
+		cs.Epoch = c.Spec.Epoch + 1
+		cs.Seed = c.Spec.Seed ^ 0x5eed
+		cs.TxIndex = true
+		if cep, err := cargen.Build(&cs); err == nil {
+			compEnv, _ = vfBuildEpoch(filepath.Join(dir, "companion"), cep, vfBuildOpts{})
+		}
+		if compEnv != nil {
+			defer compEnv.Close()
+		}
+	}
 	epochLevel := func(role, path string, cuts []int) error {
 		raw, err := os.ReadFile(path)
 		if err != nil {
@@ -552,6 +567,12 @@ func vfC13eval(c *vfC13Case, st *vfC13Stats) error {
 			}
 			m := NewMultiEpoch(&Options{EpochSearchConcurrency: 1})
 			m.AddEpoch(e.Epoch(), e)
+			if compEnv != nil && (role == "sig_exists" || role == "sig_to_cid") && cut%2 == 0 {
+				if ce, err := compEnv.Load(vfNewCache()); err == nil {
+					m.AddEpoch(ce.Epoch(), ce)
+					st.add("epoch-"+role+"/two-epochs-loaded", 1)
+				}
+			}
 			hh := newMultiEpochHandler(m, nil)
 			judge := func(what string, body, want string) error {
 				st.add("lookups", 1)
@@ -637,7 +658,11 @@ func vfC13eval(c *vfC13Case, st *vfC13Stats) error {
 		if err != nil {
 			return err
 		}
-		if err := epochLevel(role, path, pick(int(fi.Size()), 4, nil)); err != nil {
+		n := 4
+		if role == "sig_exists" {
+			n = 10 // most of that file is its prefix table; the cuts of interest lie behind it
+		}
+		if err := epochLevel(role, path, pick(int(fi.Size()), n, nil)); err != nil {
 			return err
 		}
 	}
